@@ -594,6 +594,7 @@ func init() {
 			g.u.mutfns = append(g.u.mutfns, mutfn{v, fmt.Sprintf("[k for k in %s][0](5)", v), "set-elem-bound-method", "list.append"})
 			g.feature("set-of-bound-method")
 		}},
+		{"derive", 9, func(g *gen) { g.derive() }},
 		{"json", 1, func(g *gen) {
 			v := g.fresh("v")
 			if g.r.Intn(2) == 0 {
@@ -639,6 +640,191 @@ func init() {
 			g.feature("sink")
 		}},
 	}
+}
+
+// Host-supplied values that the host froze before execution (e.g. results of an earlier module).
+var hostFrozen = map[string]string{"list": "frozL", "tuple": "frozT", "dict": "frozD", "set": "frozS", "struct": "frozE"}
+
+// frozenOperand returns an already-frozen value of the given kind: a name loaded from the library
+// module if there is one (two times out of three), else a host-frozen predeclared value.
+func (g *gen) frozenOperand(kind string) (name, source string) {
+	var cs []string
+	for _, v := range g.vars {
+		if v.frozen && v.kind == kind {
+			cs = append(cs, v.name)
+		}
+	}
+	if len(cs) > 0 && g.r.Intn(3) != 0 {
+		return cs[g.r.Intn(len(cs))], "lib"
+	}
+	return hostFrozen[kind], "host-frozen"
+}
+
+// freshPart returns a fresh mutable literal that is reachable from nothing else.
+func (g *gen) freshPart() string {
+	switch g.r.Intn(4) {
+	case 0:
+		return "[]"
+	case 1:
+		return fmt.Sprintf(`{"f": %s}`, g.atom())
+	case 2:
+		return fmt.Sprintf("[%s, [%d]]", g.atom(), g.r.Intn(9))
+	default:
+		return fmt.Sprintf("[%s]", g.atom())
+	}
+}
+
+// derive emits a binary operation / conversion whose result is a NEW container built from an
+// already-frozen operand plus fresh mutable parts, stored in a global.
+func (g *gen) derive() {
+	v := g.fresh("v")
+	kind := []string{"struct", "struct", "list", "tuple", "dict", "set"}[g.r.Intn(6)]
+	// prefer a kind for which a value loaded from the library module is at hand
+	var loaded []gvar
+	for _, lv := range g.vars {
+		if lv.frozen && hostFrozen[lv.kind] != "" {
+			loaded = append(loaded, lv)
+		}
+	}
+	if len(loaded) > 0 && g.r.Intn(3) != 0 {
+		kind = loaded[g.r.Intn(len(loaded))].kind
+	}
+	F, src := g.frozenOperand(kind)
+	fp := g.freshPart()
+	form := ""
+	switch kind {
+	case "struct":
+		switch g.r.Intn(4) {
+		case 0, 1:
+			form = "frozen+fresh"
+			g.emit("%s = %s + struct(zitems = %s, zd = %s)", v, F, fp, g.freshPart())
+		case 2:
+			form = "fresh+frozen"
+			g.emit("%s = struct(zitems = %s) + %s", v, fp, F)
+		default:
+			form = "fresh+fresh"
+			src = "none"
+			g.emit("%s = struct(a = %s) + struct(zitems = %s)", v, g.freshPart(), fp)
+		}
+		if g.r.Intn(2) == 0 {
+			f := g.fresh("zadd")
+			if strings.HasPrefix(fp, "{") {
+				g.emit("def %s():\n    %s.zitems[\"k%d\"] = 1", f, v, 1000+g.n)
+				g.u.mutfns = append(g.u.mutfns, mutfn{f, f + "()", "derived-struct-field-setkey", "stmt x[newkey]=v"})
+			} else {
+				g.emit("def %s():\n    %s.zitems.append(1)", f, v)
+				g.u.mutfns = append(g.u.mutfns, mutfn{f, f + "()", "derived-struct-field-append", "list.append"})
+			}
+			g.regKeep(f, "func", true)
+			g.regKeep(v, "struct", false)
+		} else {
+			g.reg(v, "struct", false)
+		}
+	case "list":
+		switch g.r.Intn(9) {
+		case 0:
+			form = "frozen+[fresh]"
+			g.emit("%s = %s + [%s]", v, F, fp)
+		case 1:
+			form = "[fresh]+frozen"
+			g.emit("%s = [%s] + %s", v, fp, F)
+		case 2:
+			form = "frozen*n"
+			g.emit("%s = %s * 2", v, F)
+		case 3:
+			form = "slice+[fresh]"
+			g.emit("%s = %s[0:2] + [%s]", v, F, fp)
+		case 4:
+			form = "list(frozen)+[fresh]"
+			g.emit("%s = list(%s)", v, F)
+			g.emit("%s.append(%s)", v, fp)
+		case 5:
+			form = "comprehension-over-frozen"
+			g.emit("%s = [[e, %s] for e in %s]", v, fp, F)
+		case 6:
+			form = "sorted(frozen)+[fresh]"
+			g.emit("%s = sorted(%s, key = lambda e: 0) + [%s]", v, F, fp)
+		case 7:
+			form = "full-slice"
+			g.emit("%s = %s[:]", v, F)
+			g.emit("%s.insert(0, %s)", v, fp)
+		default:
+			form = "comprehension+[fresh]"
+			g.emit("%s = [e for e in %s] + [%s]", v, F, fp)
+		}
+		g.reg(v, "list", false)
+	case "tuple":
+		switch g.r.Intn(5) {
+		case 0:
+			form = "frozen+(fresh,)"
+			g.emit("%s = %s + (%s,)", v, F, fp)
+		case 1:
+			form = "(fresh,)+frozen"
+			g.emit("%s = (%s,) + %s", v, fp, F)
+		case 2:
+			form = "frozen*n"
+			g.emit("%s = (%s * 2, %s)", v, F, fp)
+		case 3:
+			form = "slice+(fresh,)"
+			g.emit("%s = %s[0:1] + (%s,)", v, F, fp)
+		default:
+			form = "tuple(frozen)+(fresh,)"
+			g.emit("%s = tuple(%s) + (%s,)", v, F, fp)
+		}
+		g.reg(v, "tuple", false)
+	case "dict":
+		switch g.r.Intn(6) {
+		case 0:
+			form = "frozen|{k:fresh}"
+			g.emit(`%s = %s | {"zk": %s}`, v, F, fp)
+		case 1:
+			form = "{k:fresh}|frozen"
+			g.emit(`%s = {"zk": %s} | %s`, v, fp, F)
+		case 2:
+			form = "dict(frozen,k=fresh)"
+			g.emit(`%s = dict(%s, zk = %s)`, v, F, fp)
+		case 3:
+			form = "dict(frozen)+setkey"
+			g.emit(`%s = dict(%s)`, v, F)
+			g.emit(`%s["zk"] = %s`, v, fp)
+		case 4:
+			form = "dict-comprehension-over-frozen"
+			g.emit(`%s = {k: [%s[k], %s] for k in %s}`, v, F, fp, F)
+		default:
+			form = "dict(frozen).update"
+			g.emit(`%s = dict(%s)`, v, F)
+			g.emit(`%s.update(zk = %s)`, v, fp)
+		}
+		g.reg(v, "dict", false)
+	default:
+		// fresh parts of a set must be hashable: bound methods of fresh lists carry the mutable state
+		switch g.r.Intn(4) {
+		case 0:
+			form = "frozen|set"
+			g.emit("%s = %s | set([%s.append])", v, F, fp0(fp))
+		case 1:
+			form = "set|frozen"
+			g.emit("%s = set([%s.append]) | %s", v, fp0(fp), F)
+		case 2:
+			form = "frozen.union"
+			g.emit("%s = %s.union([%s.append, 77])", v, F, fp0(fp))
+		default:
+			form = "set(frozen).add"
+			g.emit("%s = set(%s)", v, F)
+			g.emit("%s.add(%s.append)", v, fp0(fp))
+		}
+		g.reg(v, "set", false)
+	}
+	g.feature("derive:" + kind + " " + form)
+	g.feature("derive-source:" + src)
+}
+
+// fp0 turns a fresh literal into a list literal (whose bound method is hashable).
+func fp0(fp string) string {
+	if strings.HasPrefix(fp, "{") {
+		return "[" + fp + "]"
+	}
+	return fp
 }
 
 func (g *gen) markKeep(name string) {
@@ -793,7 +979,7 @@ func genUnit(r *rand.Rand, p *program, lib bool, loadable []gvar) *unit {
 	}
 	// load statement first
 	if len(loadable) > 0 {
-		n := 1 + r.Intn(3)
+		n := 2 + r.Intn(3)
 		perm := r.Perm(len(loadable))
 		var parts []string
 		for i := 0; i < n && i < len(perm); i++ {
@@ -836,6 +1022,14 @@ func genUnit(r *rand.Rand, p *program, lib bool, loadable []gvar) *unit {
 				break
 			}
 			x -= snippets[j].weight
+		}
+	}
+	if lib {
+		// the library always offers a struct and a list for the importing module to build on
+		for j := range snippets {
+			if snippets[j].name == "struct" || snippets[j].name == "list" {
+				steps = append([]step{{sn: &snippets[j], fail: -1}}, steps...)
+			}
 		}
 	}
 	if !lib {
